@@ -132,6 +132,65 @@ def judge(case):
     return "ok", ""
 
 
+def random_templates(rep, tier, seed):
+    """longer templates over more modes and gate names, one parameter per argument (parameters repeated across operations), each with a
+    random reordering that keeps per-mode order; TLC (Oracle_C17) confirms the reordering is legal, proves the specification's statements
+    for the case and lists the edits"""
+    import os
+    from fractions import Fraction
+    rng = random.Random(seed + 1717)
+    n = 150 if tier == "quick" else 1500
+    out = []
+    for _ in range(n):
+        nmodes = rng.choice([2, 3, 3, 4])
+        L = rng.randrange(4, 8)
+        names = ["a", "b", "c", "d"][:rng.choice([1, 2, 3, 4])]
+        tmpl = []
+        for _ in range(L):
+            two = nmodes >= 2 and rng.random() < 0.4
+            modes = rng.sample(range(nmodes), 2) if two else [rng.randrange(nmodes)]
+            args = []
+            for _ in range(rng.choice([0, 1, 1, 2])):
+                if rng.random() < 0.3:
+                    f = Fraction(rng.randrange(-9, 10), rng.choice([1, 2, 4, 5]))
+                    args.append({"kind": "const", "v": [f.numerator, f.denominator]})
+                else:
+                    c1 = Fraction(rng.choice([-3, -2, -1, 1, 2, 3, 5]), rng.choice([1, 2, 4]))
+                    c0 = Fraction(rng.randrange(-4, 5), rng.choice([1, 2, 4]))
+                    args.append({"kind": "aff", "p": rng.choice(names), "c1": [c1.numerator, c1.denominator], "c0": [c0.numerator, c0.denominator]})
+            tmpl.append({"name": rng.choice(["BS", "S2", "CX"]) if two else rng.choice(["R", "S", "D", "K"]), "modes": modes, "args": args})
+        used = sorted({a["p"] for o in tmpl for a in o["args"] if a["kind"] == "aff"})
+        if not used:
+            continue
+        env = {}
+        for p in used:
+            f = Fraction(rng.choice([-1, 1]) * rng.randrange(1, 40), rng.choice([8, 16, 32]))     # generic: no accidental coincidences
+            env[p] = [f.numerator, f.denominator]
+        # a random linear extension of "shares a mode => keeps its order"
+        remaining = list(range(L))
+        perm = []
+        while remaining:
+            ready = [i for i in remaining if not any(j < i and set(tmpl[j]["modes"]) & set(tmpl[i]["modes"]) for j in remaining)]
+            i = rng.choice(ready)
+            perm.append(i + 1)
+            remaining.remove(i)
+        out.append({"tmpl": tmpl, "env": env, "perm": perm})
+    path = os.path.join(common.scratch(), "c17cases.json")
+    with open(path, "w") as fh:
+        json.dump(out, fh)
+    r = common.run_tlc("Oracle_C17", "INIT Init\nNEXT Next\nINVARIANT LegalReordering\nINVARIANT MatchInvertsInstantiation\nINVARIANT EditsRejected\nCONSTRAINT Emit\n",
+                       env={"CASE_FILE": path}, timeout=3000)
+    common.require_ok(r, "Oracle_C17")
+    rep.add_tlc(r, "Oracle_C17: %d random templates of 4..7 operations over 2..4 modes, random order-preserving reorderings" % len(out))
+    if r.violated:
+        raise common.MachineryError("Oracle_C17: spec-level invariant %s violated\n%s" % (r.violated, r.counterexample()[:2500]))
+    cases = list({c["t"]["n"]: c for c in r.tagged("CASE")}.values())
+    if len(cases) != len(out):
+        raise common.MachineryError("Oracle_C17: %d verdicts for %d cases" % (len(cases), len(out)))
+    rep.cov["random_templates"] = len(cases)
+    return cases
+
+
 def fingerprint(case, why):
     return None
 
@@ -145,6 +204,7 @@ def run(rep, tier, seed):
     if r.violated:
         raise common.MachineryError("MC_C17: spec-level invariant %s violated\n%s" % (r.violated, r.counterexample()[:2000]))
     cases = r.tagged("CASE")
+    cases += random_templates(rep, tier, seed)
     for i, c in enumerate(cases):
         c["seed"] = seed * 101 + i
         hand = c["t"]["k"] == "hand"
